@@ -8,7 +8,7 @@ import time
 from multiprocessing import Pool
 
 from common import asan_stage, COPIA, NCPU, Result, SplitMix, build, finish, seed, workdir
-from fsutil import (HOSTILE_COMPONENTS, MUTATING, STAGING, base_env, clear_traces, content_map, install_standin, is_staging, name_class, read_standin_log, read_traces, rmtree, run, set_mtime, shim_env, snapshot, wait_group_gone, write_file)
+from fsutil import (clear_standin_log, HOSTILE_COMPONENTS, MUTATING, STAGING, base_env, clear_traces, content_map, install_standin, is_staging, name_class, read_standin_log, read_traces, rmtree, run, set_mtime, shim_env, snapshot, wait_group_gone, write_file)
 
 DIRECTIONS = ("local", "push", "pull")
 MTIMES = [(0, 0), (1, 0), (1_600_000_000, 1), (1_600_000_000, 500_000_000), (1_600_000_000, 999_999_999), (2_147_483_647, 0), (2_147_483_648, 0), (4_102_444_800, 0), (9_999_999_999, 0), (1_700_000_000, 0), (1_234_567_890, 123_456_789)]
@@ -514,7 +514,8 @@ def _c14_worker(args):
             got = sources_read(ow, tr)
             if got != transfer:
                 res["viol"].append(("C14|%s|run1-read-set-differs-from-transfer-set" % direction, dict(label, read_not_planned=sorted(got - transfer)[:5], planned_not_read=sorted(transfer - got)[:5])))
-            ncmds = len(read_standin_log(ow.sshlog))
+            clear_standin_log(ow.sshlog)
+            ncmds = 0
             clear_traces(trace)
             _, s1 = ow.meta("src")
             dm1, d1 = ow.meta("dst")
